@@ -72,6 +72,9 @@ EvalStr(e, env, st) ==
       [] e.k = "sv"   -> st.cells[env[e.s]].str
       [] e.k = "scat" -> EvalStr(e.l, env, st) \o EvalStr(e.r, env, st)
 
+\* struct variables: the global t lives in cells 3 and 4, a local struct in two consecutive cells
+SBase(name, env) == IF name = "t" THEN 3 ELSE env[name]
+
 \* what the body of a loop iteration means for the loop labelled lab: leave it (with
 \* which control state) or go on with the next iteration
 LoopExit(b, lab) ==
@@ -101,6 +104,19 @@ EvalE(P, e, env, st) ==
       [] e.k = "sl" ->        \* s[i] : the backing array is a cell shared by every copy of the slice
             [v |-> st.cells[st.cells[env[e.s]].back][e.ix + 1], st |-> st]
       [] e.k = "deref" -> [v |-> st.cells[st.cells[env[e.p]].ptr], st |-> st]      \* *p
+      [] e.k = "cvar" -> [v |-> e.v, st |-> st]       \* a local constant: its value is part of the node
+      [] e.k = "ufld" -> [v |-> st.cells[SBase(e.s, env) + (IF e.f = "a" THEN 0 ELSE 1)], st |-> st]      \* u.f
+      [] e.k = "qfld" -> [v |-> st.cells[st.cells[env[e.p]].ptr + (IF e.f = "a" THEN 0 ELSE 1)], st |-> st] \* q.f, q a *T
+      [] e.k = "usum" ->      \* u.sum() : value receiver, a*3 + b
+            LET b == IF e.via = "ptr" THEN st.cells[env[e.s]].ptr ELSE SBase(e.s, env)
+                v == st.cells[b] * 3 + st.cells[b + 1]
+            IN [v |-> v, st |-> Chk(st, v)]
+      [] e.k = "bvar" -> [v |-> st.cells[env[e.s]], st |-> st]
+      [] e.k = "ucmp" ->      \* u == v  /  u != v  on struct values
+            LET a == SBase(e.s, env)
+                b == SBase(e.from, env)
+                same == st.cells[a] = st.cells[b] /\ st.cells[a + 1] = st.cells[b + 1]
+            IN [v |-> IF e.op = "eq" THEN same ELSE ~same, st |-> st]
       [] e.k = "mget" ->      \* m[k] : zero when the key is absent or the map is nil
             LET i == EvalE(P, e.i, env, st) IN
             IF ~Ok(i.st) THEN i ELSE [v |-> MapGet(i.st, i.st.cells[env[e.s]], i.v % 4), st |-> i.st]
@@ -129,7 +145,9 @@ EvalE(P, e, env, st) ==
             IF ~Ok(a.st) THEN [v |-> 0, st |-> a.st] ELSE
             LET c == CallFn(P, e.f, a.vs, a.st) IN [v |-> c.vs[1], st |-> c.st]
       [] e.k = "clo" ->
-            LET c == CallClo(P, st.cells[env[e.c]], <<>>, st) IN [v |-> c.vs[1], st |-> c.st]
+            LET a == EvalArgs(P, e.args, env, st) IN
+            IF ~Ok(a.st) THEN [v |-> 0, st |-> a.st] ELSE
+            LET c == CallClo(P, a.st.cells[env[e.c]], a.vs, a.st) IN [v |-> c.vs[1], st |-> c.st]
       [] e.k = "cmp" ->
             LET l == EvalE(P, e.l, env, st)
                 r == EvalE(P, e.r, env, l.st)
@@ -167,6 +185,12 @@ RunDefers(P, ds, st) ==
              THEN RunBody(P, d.body, d.env, st1, [direct |-> panicking, ret |-> "$none"]).st
              ELSE IF d.k = "print"
              THEN Emit1(st1, <<"d", d.vs[1]>>)
+             ELSE IF d.k = "method"      \* t.bump(v) with the receiver's address fixed at the defer statement
+             THEN LET n == st1.cells[d.base] + d.vs[1] IN Chk(Store(st1, d.base, n), n)
+             ELSE IF d.k = "clo"         \* c() with the function value fixed at the defer statement
+             THEN CallClo(P, d.c, <<>>, st1).st
+             ELSE IF d.k = "mdel"        \* delete(m, k) with map and key fixed at the defer statement
+             THEN (IF d.mv.mp = 0 THEN st1 ELSE Store(st1, d.mv.mp, [st1.cells[d.mv.mp] EXCEPT !.pres = @ \ {d.key}]))
              ELSE CallFn(P, d.f, d.vs, st1).st
         st2 == IF r.status = "ok"
                THEN IF panicking /\ ~r.recd THEN [r EXCEPT !.status = "panic", !.pval = saved] ELSE r
@@ -198,8 +222,8 @@ CallFn(P, f, args, st) ==
 \* call of a function literal value: its own environment, one hidden result cell
 CallClo(P, c, args, st) ==
     LET rc  == NewId(st)
-        st1 == Alloc(st, 0)
-        env == Bind(c.env, "$ret", rc)
+        st1 == IF c.par THEN Alloc(Alloc(st, 0), args[1]) ELSE Alloc(st, 0)
+        env == IF c.par THEN Bind(Bind(c.env, "$ret", rc), "a", rc + 1) ELSE Bind(c.env, "$ret", rc)
         b   == RunBody(P, c.body, env, st1, [direct |-> FALSE, ret |-> "$ret"])
     IN [vs |-> <<b.st.cells[rc]>>, st |-> b.st]
 
@@ -228,17 +252,23 @@ Loop3(P, s, env, st, ctx, vc) ==
             st1 == Alloc(b.st, b.st.cells[vc] + 1)
         IN Loop3(P, s, env, st1, ctx, nc)
 
-\* switch cases in order; fallthrough runs the next body unconditionally
+\* expression switch.  The clauses in source order: the default clause stands before case
+\* dpos + 1 (dpos = number of cases: last); a case lists the values v and w (w = v: one value).  The first case holding the tag value is chosen,
+\* the default clause when none does; fallthrough runs the next clause IN SOURCE ORDER.
+Clauses(s) ==
+    [i \in 1..(Len(s.cases) + 1) |->
+        IF i = s.dpos + 1 THEN [def |-> TRUE, v |-> 0, w |-> 0, body |-> s.dflt, fall |-> s.dfall]
+        ELSE LET c == s.cases[IF i <= s.dpos THEN i ELSE i - 1] IN [def |-> FALSE, v |-> c.v, w |-> c.w, body |-> c.body, fall |-> c.fall]]
 Cases(P, cs, i, tag, env, st, ctx) ==
-    IF i > Len(cs) THEN [st |-> st, ctl |-> Next_, hit |-> FALSE] ELSE
-    IF cs[i].v = tag THEN
-        LET RECURSIVE Run(_, _)
-            Run(j, s) ==
-              LET b == ExecB(P, cs[j].body, env, s, ctx) IN
-              IF Ok(b.st) /\ b.ctl.k = "next" /\ cs[j].fall /\ j < Len(cs) THEN Run(j + 1, b.st)
-              ELSE [st |-> b.st, ctl |-> b.ctl, hit |-> TRUE]
-        IN Run(i, st)
-    ELSE Cases(P, cs, i + 1, tag, env, st, ctx)
+    LET hit == {j \in 1..Len(cs) : ~cs[j].def /\ tag \in {cs[j].v, cs[j].w}}
+        first == IF hit # {} THEN CHOOSE j \in hit : \A k \in hit : j <= k
+                 ELSE CHOOSE j \in 1..Len(cs) : cs[j].def
+        RECURSIVE Run(_, _)
+        Run(j, s) ==
+          LET b == ExecB(P, cs[j].body, env, s, ctx) IN
+          IF Ok(b.st) /\ b.ctl.k = "next" /\ cs[j].fall /\ j < Len(cs) THEN Run(j + 1, b.st)
+          ELSE [st |-> b.st, ctl |-> b.ctl, hit |-> TRUE]
+    IN Run(first, st)
 
 \* statement: [env, st, ctl]
 ExecS(P, s, env, st0, ctx) ==
@@ -361,9 +391,7 @@ ExecS(P, s, env, st0, ctx) ==
       [] s.k = "switch" ->
             LET t == EvalE(P, s.tag, env, st) IN
             IF ~Ok(t.st) THEN R(env, t.st) ELSE
-            LET c == Cases(P, s.cases, 1, t.v, env, t.st, ctx)
-                d == IF c.hit THEN c ELSE
-                     LET b == ExecB(P, s.dflt, env, t.st, ctx) IN [st |-> b.st, ctl |-> b.ctl, hit |-> TRUE]
+            LET d == Cases(P, Clauses(s), 1, t.v, env, t.st, ctx)
             IN [env |-> env, st |-> d.st,
                 ctl |-> IF d.ctl.k = "brk" /\ d.ctl.lab = "" THEN Next_ ELSE d.ctl]
       [] s.k = "brk"  -> [env |-> env, st |-> st, ctl |-> [k |-> "brk", lab |-> s.lab]]
@@ -379,9 +407,9 @@ ExecS(P, s, env, st0, ctx) ==
             IN IF ~Ok(b.st) THEN R(env, b.st)
                ELSE [env |-> env, st |-> Store(Store(b.st, env["r"], a.v), env["q"], b.v), ctl |-> [k |-> "ret", lab |-> ""]]
       [] s.k = "mkclo" ->     \* c := func() int { body }
-            R(Bind(env, s.c, NewId(st)), Alloc(st, [body |-> s.body, env |-> env]))
+            R(Bind(env, s.c, NewId(st)), Alloc(st, [body |-> s.body, env |-> env, par |-> s.par]))
       [] s.k = "appclo" ->    \* fs = append(fs, func() int { body })
-            R(env, Store(st, env["fs"], Append(st.cells[env["fs"]], [body |-> s.body, env |-> env])))
+            R(env, Store(st, env["fs"], Append(st.cells[env["fs"]], [body |-> s.body, env |-> env, par |-> FALSE])))
       [] s.k = "mkfs" ->      \* var fs []func() int
             R(Bind(env, "fs", NewId(st)), Alloc(st, <<>>))
       [] s.k = "callall" ->   \* for _, f := range fs { print(f()) }
@@ -392,10 +420,16 @@ ExecS(P, s, env, st0, ctx) ==
                 R(env, [st EXCEPT !.nd = id, !.ev = Append(@, [t |-> "reg", id |-> id, depth |-> Last(st.astk)]),
                                   !.dstk[Len(st.dstk)] = <<[k |-> "lit", id |-> id, body |-> s.body, env |-> env]>> \o @])
             ELSE
-                LET a == EvalE(P, s.e, env, st) IN     \* argument fixed now
+                LET a == EvalE(P, s.e, env, st)      \* argument fixed now
+                    dd == CASE s.form = "method" -> [k |-> "method", id |-> id, vs |-> <<a.v>>,
+                                                      base |-> IF s.via = "ptr" THEN a.st.cells[env[s.s]].ptr ELSE SBase(s.s, env)]
+                            [] s.form = "clo"    -> [k |-> "clo", id |-> id, c |-> a.st.cells[env[s.s]]]
+                            [] s.form = "mdel"   -> [k |-> "mdel", id |-> id, mv |-> a.st.cells[env[s.s]], key |-> a.v % 4]
+                            [] OTHER             -> [k |-> s.form, id |-> id, f |-> s.f, vs |-> <<a.v>>]
+                IN
                 IF ~Ok(a.st) THEN R(env, a.st) ELSE
                 R(env, [a.st EXCEPT !.nd = id, !.ev = Append(@, [t |-> "reg", id |-> id, depth |-> Last(st.astk)]),
-                                    !.dstk[Len(a.st.dstk)] = <<[k |-> s.form, id |-> id, f |-> s.f, vs |-> <<a.v>>]>> \o @])
+                                    !.dstk[Len(a.st.dstk)] = <<dd>> \o @])
       [] s.k = "panic" ->
             LET v == EvalE(P, s.e, env, st) IN R(env, IF Ok(v.st) THEN Panic(v.st, v.v) ELSE v.st)
       [] s.k = "fault" -> R(env, Panic(st, "fault"))     \* a run-time fault of kind s.kind
@@ -404,6 +438,49 @@ ExecS(P, s, env, st0, ctx) ==
             THEN LET st1 == Emit1([st EXCEPT !.recd = TRUE], <<"rec", st.pval>>) IN
                  IF s.setr THEN R(env, Store(st1, env["r"], st1.cells[env["r"]] + 100)) ELSE R(env, st1)
             ELSE R(env, Emit1(st, <<"norec">>))
+      [] s.k = "cdef" -> R(env, st)      \* const k = v : uses carry the value
+      [] s.k = "bdef" ->      \* b := condition
+            LET c == EvalE(P, s.c, env, st) IN
+            IF ~Ok(c.st) THEN R(env, c.st) ELSE R(Bind(env, s.s, NewId(c.st)), Alloc(c.st, c.v))
+      [] s.k = "basg" ->      \* b = condition
+            LET c == EvalE(P, s.c, env, st) IN
+            R(env, IF Ok(c.st) THEN Store(c.st, env[s.s], c.v) ELSE c.st)
+      [] s.k = "umk" ->       \* u := t  |  u := v  |  u := T{ea, eb} : a new struct variable holding a COPY
+            IF s.form = "lit" THEN
+                LET a == EvalE(P, s.a, env, st)
+                    b == EvalE(P, s.b, env, a.st)
+                IN IF ~Ok(b.st) THEN R(env, b.st) ELSE R(Bind(env, s.s, NewId(b.st)), Alloc(Alloc(b.st, a.v), b.v))
+            ELSE LET f == SBase(s.from, env) IN
+                 R(Bind(env, s.s, NewId(st)), Alloc(Alloc(st, st.cells[f]), st.cells[f + 1]))
+      [] s.k = "ucopy" ->     \* dst = src on struct variables: both fields are copied
+            LET f == SBase(s.from, env)
+                d == SBase(s.s, env)
+            IN R(env, Store(Store(st, d, st.cells[f]), d + 1, st.cells[f + 1]))
+      [] s.k = "ufset" ->     \* u.f = e  /  u.f += e
+            LET v == EvalE(P, s.e, env, st)
+                c == SBase(s.s, env) + (IF s.f = "a" THEN 0 ELSE 1)
+                n == IF s.op = "set" THEN v.v ELSE v.st.cells[c] + v.v
+            IN R(env, IF Ok(v.st) THEN Chk(Store(v.st, c, n), n) ELSE v.st)
+      [] s.k = "ubump" ->     \* u.bump(e)  /  q.bump(e) : pointer receiver, adds e to field a
+            LET v == EvalE(P, s.e, env, st)
+                c == IF s.via = "ptr" THEN v.st.cells[env[s.s]].ptr ELSE SBase(s.s, env)
+                n == v.st.cells[c] + v.v
+            IN R(env, IF Ok(v.st) THEN Chk(Store(v.st, c, n), n) ELSE v.st)
+      [] s.k = "uprint" ->
+            LET b == SBase(s.s, env) IN R(env, Emit1(st, <<"u", st.cells[b], st.cells[b + 1]>>))
+      [] s.k = "mkpu" ->      \* q := &u
+            R(Bind(env, s.p, NewId(st)), Alloc(st, [ptr |-> SBase(s.s, env)]))
+      [] s.k = "qfset" ->     \* q.f = e  /  q.f += e
+            LET v == EvalE(P, s.e, env, st)
+                c == v.st.cells[env[s.p]].ptr + (IF s.f = "a" THEN 0 ELSE 1)
+                n == IF s.op = "set" THEN v.v ELSE v.st.cells[c] + v.v
+            IN R(env, IF Ok(v.st) THEN Chk(Store(v.st, c, n), n) ELSE v.st)
+      [] s.k = "qcopy" ->     \* *q = u  |  u = *q
+            LET qb == st.cells[env[s.p]].ptr
+                ub == SBase(s.s, env)
+                f  == IF s.form = "store" THEN ub ELSE qb
+                d  == IF s.form = "store" THEN qb ELSE ub
+            IN R(env, Store(Store(st, d, st.cells[f]), d + 1, st.cells[f + 1]))
       [] s.k = "mkmap" ->     \* m := map[int]int{k1: e1, k2: e2}  |  m := make(map[int]int)  |  var m map[int]int
             IF s.form = "nil" THEN R(Bind(env, s.s, NewId(st)), Alloc(st, [mp |-> 0])) ELSE
             LET a == EvalArgs(P, s.es, env, st) IN
